@@ -43,6 +43,8 @@ EXPLANATION = (
     "never one mutable allocation made outside the loop and stored under several names (reaching definitions on the inlined views).  "
     "R11 NetworkGraph._add_edge_buffer: when delayed projections are merged into shared buffer slots (first-occurrence registry), the slot "
     "key draws on every per-projection sequence that is then reduced to one entry per slot (source element, delay, spread).  "
+    "R12 the edge-equation generator and its helpers never accumulate edge weights by `M[index arrays] += w` (buffered in numpy: parallel "
+    "edges of one (target, source) pair would lose all but one weight); per-edge loops and np.add.at are fine (synthetic controls).  "
     "NOT decided: the choice of the sparseness threshold, equality of trajectories, user edge dictionaries that already contain "
     "source_idx/target_idx."
 )
